@@ -51,6 +51,12 @@ var encs = [][]string{{"\""}, {"'"}, {"<", ">"}, {"[", "]"}, {"«", "»"}, {"{{"
 
 func genRenderCfg(r *rand.Rand, kind int) Cfg {
 	c := Cfg{Kind: kind}
+	if r.Intn(8) == 0 {
+		c.Err = 7 // an error someone recorded (a refused Push, SetErr) is no reason not to render
+	}
+	if r.Intn(8) == 0 {
+		c.Opt |= fNNest // set after the content is in place: what is there is rendered as what it is
+	}
 	for _, f := range []int{fParen, fFold, fNoPad, fLOnce} {
 		if r.Intn(3) == 0 {
 			c.Opt |= f
